@@ -36,6 +36,7 @@ class StringHooks(FullHooks):
     def external(self, I, d, args, kwargs, site):
         if d == "sqlglot.parse":
             self.parse_arg = (args[0] if args else None, kwargs.get("read"))
+            self.parse_kwargs = dict(kwargs)
             a = node("Insert", "part_a")
             b = node("Update", "part_b")
             semi = node("Semicolon", "comment_only")
@@ -114,6 +115,17 @@ def rule_execute_string(ctx):
                                       f"execute_string hands `{tagof(parg)[:70]}` (read={tagof(pread)}) to the statement splitter instead of the caller's "
                                       f"text parsed as Snowflake SQL: textual pre-processing cannot tell `--`, `/*` or `;` inside a string literal from "
                                       f"a comment or a separator")
+                    # the split is strict: a script with a statement the parser rejects fails as a whole before anything runs — a lenient
+                    # parse hands out *partial* trees, whose re-rendering can be valid SQL for a different statement
+                    lvl = getattr(h, "parse_kwargs", {}).get("error_level")
+                    lenient = lvl is not None and any(w in tagof(lvl).upper() for w in ("IGNORE", "WARN"))
+                    ctx.ob("C16.a", "the script is split by a strict parse (no error_level=IGNORE / WARN)", not lenient, "fakesnow/conn.py", tagof(lvl) if lvl is not None else "")
+                    if lenient:
+                        ctx.violation("C16.a", "conn", "FakeSnowflakeConnection.execute_string", "script split with a lenient parse", "fakesnow/conn.py",
+                                      f"execute_string splits the script with error_level={tagof(lvl)}: for an invalid statement the parser returns the "
+                                      f"part it understood, and what is executed is that part's rendering (`delete from t where id in (1, 2` runs as "
+                                      f"`DELETE FROM t WHERE id IN (1, 2)`, `drop table t cascade please` as `DROP TABLE t CASCADE`) — not the statement "
+                                      f"the caller wrote, which one-by-one execution rejects")
                     ok = p.outcome == "return" and rendered == ["part_a", "part_b"]
                     ctx.ob("C16.a", f"execute_string executes exactly the two statements, in order (dict={dict_cursor}, return_cursors={return_cursors})", ok,
                            "fakesnow/conn.py", str(rendered))
